@@ -32,7 +32,10 @@ def load_petl():
         stub.__version_tuple__ = stub.version_tuple = (0, 'verif')
         stub.__commit_id__ = stub.commit_id = None
         sys.modules['petl.version'] = stub
+    import logging
     import petl
+    # petl warns through the logging module (e.g. fromdb on a bare cursor)
+    logging.getLogger('petl').setLevel(logging.ERROR)
     here = os.path.realpath(petl.__file__)
     if not here.startswith(root + os.sep):
         raise RuntimeError('petl imported from %s, expected under %s'
